@@ -32,6 +32,9 @@ pub struct ImStep {
     pub back: bool,
     pub prio: Option<i32>,
     pub payload: Option<u8>,
+    /// > 0: advance with nth(skip) / nth_back(skip) instead of next / next_back
+    #[serde(default)]
+    pub skip: u32,
 }
 
 #[derive(Clone, Debug, PartialEq, Eq, Hash, Serialize, Deserialize, PartialOrd, Ord)]
@@ -353,18 +356,28 @@ pub fn step<Q: QueueLike>(q: &mut Q, op: &Op, m: &mut Model, unordered: &mut boo
             let mut addrs: Vec<(usize, usize)> = vec![];
             let mut yielded: Vec<u32> = vec![];
             let mut out = vec![];
+            // elements passed over by nth / nth_back (consumed, never handed out)
+            let mut skipped = 0usize;
             for st in steps {
                 let e = if st.back {
-                    match it.nb() {
+                    match if st.skip > 0 { it.nth_back(st.skip as usize) } else { it.nb() } {
                         Some(e) => e,
                         None => bail!("iter_mut of {} does not offer next_back", Q::KIND),
                     }
+                } else if st.skip > 0 {
+                    it.nth(st.skip as usize)
                 } else {
                     it.nx()
                 };
                 match e {
                     None => {
-                        if yielded.len() != m.len() {
+                        if st.skip > 0 {
+                            // nth past the end consumes everything that was left
+                            if yielded.len() + skipped + st.skip as usize + 1 <= m.len() {
+                                bail!("iter_mut: nth({}) returned None with {} elements left", st.skip, m.len() - yielded.len() - skipped);
+                            }
+                            skipped = m.len() - yielded.len();
+                        } else if yielded.len() + skipped != m.len() {
                             bail!("iter_mut ended after {} of {} elements", yielded.len(), m.len());
                         }
                         // after exhaustion the length must be 0 (and asking for it must not panic)
@@ -391,11 +404,15 @@ pub fn step<Q: QueueLike>(q: &mut Q, op: &Op, m: &mut Model, unordered: &mut boo
                         }
                         yielded.push(cur.0);
                         out.push(cur);
+                        skipped += st.skip as usize;
+                        if yielded.len() + skipped > m.len() {
+                            bail!("iter_mut: nth({}) yielded an element although fewer than {} were left", st.skip, st.skip + 1);
+                        }
                         // the reported length follows the progress, wherever a length is declared
-                        let left = m.len() - yielded.len();
+                        let left = m.len() - yielded.len() - skipped;
                         if let Some(l) = it.xlen() {
                             if l != left {
-                                bail!("iter_mut: len() = {l} after {} of {} elements were yielded", yielded.len(), m.len());
+                                bail!("iter_mut: len() = {l} after {} of {} elements were yielded and {skipped} skipped", yielded.len(), m.len());
                             }
                         }
                         let h = it.hint();
